@@ -47,6 +47,35 @@ Three things are checked:
      generated source is put through the real Cython translation step
      (pyx -> C++, no C compiler), set up as compyle's ExtModule does.  A Cython
      error is a property failure `C12:<Scheme>:cython:<first error>`.
+ (e) stages: for EVERY grid point (the grid includes the values of the
+     configure_solver arguments the schemes branch on, e.g. WCSPH's
+     integrator_cls) every `self.<member>` that the integrator's one_timestep
+     uses -- its body is pasted into the generated cdef class Integrator --
+     must be a member of that class: one the template defines itself or a
+     stepper-method wrapper (IntegratorCythonHelper.
+     get_stepper_method_wrapper_names() of the real code).  Where code is
+     generated the same is checked on the generated class text.  Key
+     C12:<Scheme>:stage-missing:<Integrator>.<member>.  The compiled-and-run
+     sample contains every value of every solver axis on every run.
+ (f) histories: C12 is a statement about a configuration, whatever was done
+     with the scheme object or with the caller's argument objects before.
+     For pairs of grid points P, Q of one scheme (every option / solver axis
+     flipped alone between its values, plus random pairs and P = Q) two
+     histories are run on the real code
+       reconf: ONE scheme object: built and configured at P,
+               configure_solver(args), setup_properties, get_equations; then
+               configure(**options of Q) -- the documented way to change an
+               option -- and configure_solver with the SAME argument objects,
+               setup_properties on fresh plain arrays, get_equations;
+       shared: TWO scheme objects at P and Q whose configure_solver calls get
+               the SAME argument objects (one extra_steppers dict), first P's
+               then Q's; then both are set up,
+     with extra_steppers = None / {} / {wall: UserWallStep()}, a documented
+     configure_solver argument of every scheme.  At every checkpoint the
+     whole oracle of (b), (d), (e) must hold and the description must equal
+     the model's answer for that grid point with the caller's steppers merged
+     in (`pointx`, Lean `withExtra`).  Keys C12:<Scheme>:history:...; half of
+     the compiled runs reach their configuration through a reconf history.
 """
 import collections
 import contextlib
@@ -75,6 +104,99 @@ import schemes2tables as S  # noqa: E402
 def _names(xs):
     xs = sorted(xs)
     return ','.join(xs) if xs else '_'
+
+
+def stepper_wrappers(stp):
+    """the wrappers one stepper makes the code generator emit (the loop body
+    of IntegratorCythonHelper.get_stepper_method_wrapper_names)"""
+    return [x for x in dir(stp) if x.startswith('stage') or x == 'initialize'] \
+        + sorted(x[3:] for x in dir(stp) if x.startswith('py_stage'))
+
+
+_FIXED_MEMBERS = None
+
+
+def template_fixed_members():
+    """members every generated Integrator class has, read from the template
+    pysph/sph/integrator_cython.mako (the text after `cdef class Integrator`):
+    methods `def|cpdef|cdef <name>(` and attributes `cdef [public] <type> a, b`
+    at class level.  Validated on every generated module by
+    generated_integrator_problems."""
+    global _FIXED_MEMBERS
+    if _FIXED_MEMBERS is None:
+        import re
+        import pysph.sph
+        path = os.path.join(os.path.dirname(pysph.sph.__file__),
+                            'integrator_cython.mako')
+        lines = open(path).read().split('\n')
+        k = [i for i, l in enumerate(lines)
+             if l.startswith('cdef class Integrator')][0]
+        out = set()
+        for l in lines[k + 1:]:
+            if not l.startswith('    ') or l.startswith('     '):
+                continue        # class level only
+            body = l.strip()
+            m = re.match(r'(?:def|cpdef|cdef)\s+(?:[\w\*]+\s+)?(\w+)\s*\(', body)
+            if m:
+                out.add(m.group(1))
+                continue
+            m = re.match(r'cdef\s+(?:public\s+)?\w+\s+([A-Za-z_][\w, ]*)$', body)
+            if m:
+                out.update(x.strip() for x in m.group(1).split(','))
+        _FIXED_MEMBERS = out
+    return _FIXED_MEMBERS
+
+
+def integrator_uses(integ):
+    """the `self.<member>` names in the text the real code generator pastes
+    into the generated Integrator class as its one_timestep
+    (IntegratorCythonHelper.get_timestep_code), other than the members the
+    template defines itself; sorted"""
+    import re
+    from pysph.sph.integrator_cython_helper import IntegratorCythonHelper
+    h = IntegratorCythonHelper.__new__(IntegratorCythonHelper)
+    h.object = integ
+    code = h.get_timestep_code()
+    code = '\n'.join(l.split('#')[0] for l in code.split('\n'))
+    used = set(re.findall(r'\bself\s*\.\s*([A-Za-z_]\w*)', code))
+    return sorted(used - template_fixed_members())
+
+
+def stage_failures(scheme, ih=None):
+    """property oracle for the stages on the real code's own view: members
+    used by one_timestep that the generated class will not have ->
+    [(integrator class, member, wrapper names of the real helper)]"""
+    integ = scheme.get_solver().integrator
+    if ih is not None:
+        provided = set(ih.get_stepper_method_wrapper_names())
+    else:
+        provided = set()
+        for stp in integ.steppers.values():
+            provided |= set(stepper_wrappers(stp))
+    return [(type(integ).__name__, m, sorted(provided))
+            for m in integrator_uses(integ) if m not in provided]
+
+
+def generated_integrator_problems(code):
+    """on the generated module text: every self.<member> used inside the
+    generated `cdef class Integrator` is defined in that class (method or
+    cdef attribute).  -> sorted missing members"""
+    import re
+    k = code.find('\ncdef class Integrator')
+    if k < 0:
+        return ['<no cdef class Integrator in the generated module>']
+    text = code[k + 1:]
+    m = re.search(r'^\S', text[text.find('\n') + 1:], re.M)
+    if m:
+        text = text[:text.find('\n') + 1 + m.start()]
+    defined = set(re.findall(
+        r'^    (?:def|cpdef|cdef)\s+(?:[\w\*]+\s+)?(\w+)\s*\(', text, re.M))
+    for decl in re.findall(
+            r'^    cdef\s+(?:public\s+)?\w+\s+([A-Za-z_][\w, ]*)$', text, re.M):
+        defined.update(x.strip() for x in decl.split(','))
+    body = '\n'.join(l.split('#')[0] for l in text.split('\n'))
+    used = set(re.findall(r'\bself\s*\.\s*([A-Za-z_]\w*)', body))
+    return sorted(used - defined)
 
 
 def real_description(name, digits, scheme, particles, equations):
@@ -155,6 +277,7 @@ def real_description(name, digits, scheme, particles, equations):
                         complete = False
                         missing.append((type(eq).__name__, s, sorted(m)))
     integ = scheme.get_solver().integrator
+    wrappers = set()
     for arr, stp in integ.steppers.items():
         need = set()
         imp = set()
@@ -167,9 +290,12 @@ def real_description(name, digits, scheme, particles, equations):
                 need |= set(y[2:] for y in (s | d))
                 six |= set(y[2:] for y in S.index_uses(type(stp), x))
         index_used |= six
-        parts.append('st:%s:%s:%s:%s:%s' % (
+        wr = stepper_wrappers(stp)
+        wrappers |= set(wr)
+        parts.append('st:%s:%s:%s:%s:%s:%s' % (
             type(stp).__name__, arr if arr in have else '!invalid',
-            _names(need), _names(imp), _names(six)))
+            _names(need), _names(imp), _names(six),
+            '+'.join(wr) if wr else '_'))
         if arr not in have:
             complete = False
             missing.append((type(stp).__name__, arr, ['<no such array>']))
@@ -178,6 +304,10 @@ def real_description(name, digits, scheme, particles, equations):
             if m:
                 complete = False
                 missing.append((type(stp).__name__, arr, sorted(m)))
+    uses = integrator_uses(integ)
+    parts.append('integ:%s:%s' % (type(integ).__name__,
+                                  '+'.join(uses) if uses else '_'))
+    parts.append('stagesok:%s' % ('T' if set(uses) <= wrappers else 'F'))
     # the model's type verdict, evaluated here on the real arrays' carrays:
     # index-used names are an integer property somewhere, a floating one nowhere
     typesok = True
@@ -219,29 +349,41 @@ def index_type_failures(scheme, particles, equations):
 
 def real_checkers(scheme, particles, equations, codegen):
     """run the real fail-fast checks (and optionally the whole code
-    generation); returns None or (stage, exception type, message)"""
+    generation); returns (None or (stage, exception type, message),
+    stage failures [(integrator, member, wrappers)])"""
     from pysph.sph.acceleration_eval import make_acceleration_evals
     from pysph.sph.sph_compiler import SPHCompiler
     solver = scheme.get_solver()
     try:
         aevals = make_acceleration_evals(particles, equations, solver.kernel)
     except Exception as e:
-        return ('AccelerationEval', type(e).__name__, str(e)[:400])
+        return ('AccelerationEval', type(e).__name__, str(e)[:400]), \
+            stage_failures(scheme)
+    sbad = []
     try:
         comp = SPHCompiler(aevals, solver.integrator)
         ih = comp.integrator_helper
+        sbad = stage_failures(scheme, ih)
         if codegen:
             code = comp._get_code()
+            gbad = generated_integrator_problems(code)
+            if sorted(m for _, m, _ in sbad) != gbad:
+                # the per-point oracle and the generated class must agree
+                return ('codegen', 'integrator-members',
+                        'generated Integrator class uses undefined members '
+                        '%s; oracle on the helper says %s' % (gbad, sbad)), sbad
             for h in comp.acceleration_eval_helpers[1:]:
                 code += h.get_code()
             if len(code) < 1000:
-                return ('codegen', 'short', 'generated %d chars' % len(code))
+                return ('codegen', 'short',
+                        'generated %d chars' % len(code)), sbad
         else:
             for m in ih.get_stepper_method_wrapper_names():
                 ih.get_array_declarations(m)
     except Exception as e:
-        return ('SPHCompiler', type(e).__name__, str(e)[:400])
-    return None
+        return ('SPHCompiler', type(e).__name__, str(e)[:400]), \
+            (sbad or stage_failures(scheme))
+    return None, sbad
 
 
 def key_of(name, missing, fail):
@@ -271,7 +413,7 @@ def examine(job):
         return out
     try:
         with contextlib.redirect_stdout(buf):
-            fail = real_checkers(scheme, particles, equations, codegen)
+            fail, sbad = real_checkers(scheme, particles, equations, codegen)
             tbad = index_type_failures(scheme, particles, equations)
             if describe_it or fail is not None:
                 parts, complete, missing, typesok = real_description(
@@ -288,18 +430,279 @@ def examine(job):
     out['fail'] = fail
     out['accepted'] = fail is None
     out['type_failures'] = tbad
+    out['stage_failures'] = sbad
     out['classes'] = sorted(
         set(type(eq).__name__ for st in S.flatten_groups(equations)
             for _, eq in st) |
         set(type(x).__name__
             for x in scheme.get_solver().integrator.steppers.values()))
     if describe_it:
-        out['line'] = '|'.join(parts + [
-            'accepted:%s' % ('T' if fail is None else 'F'),
-            'complete:%s' % ('T' if complete else 'F'),
-            'typesok:%s' % ('T' if typesok else 'F')])
+        out['line'] = description_line(parts, fail, complete, typesok)
     out['neq'] = sum(1 for p in parts if p.startswith('eq:'))
     return out
+
+
+def description_line(parts, fail, complete, typesok):
+    return '|'.join(parts + [
+        'accepted:%s' % ('T' if fail is None else 'F'),
+        'complete:%s' % ('T' if complete else 'F'),
+        'typesok:%s' % ('T' if typesok else 'F')])
+
+
+# --------------------------------------------------------------------------
+# histories: reused scheme objects, shared argument objects, extra_steppers
+
+from pysph.sph.integrator_step import IntegratorStep  # noqa: E402
+
+
+class UserWallStep(IntegratorStep):
+    """what an application passes in `extra_steppers` for an array it moves
+    itself (cf. the shipped examples with moving walls): needs only x and u,
+    which every plain array has"""
+    def initialize(self):
+        pass
+
+    def stage1(self, d_idx, d_x, d_u, dt):
+        d_x[d_idx] += 0.5 * dt * d_u[d_idx]
+
+    def stage2(self, d_idx, d_x, d_u, dt):
+        d_x[d_idx] += 0.5 * dt * d_u[d_idx]
+
+
+EXTRA_KINDS = ('none', 'empty', 'walls')
+
+
+def make_extra(kind, walls):
+    """the caller's extra_steppers object"""
+    if kind == 'none':
+        return None
+    if kind == 'empty' or not walls:
+        return {}
+    return dict((w, UserWallStep()) for w in walls)
+
+
+def extra_wire(extra, original_keys):
+    """the caller's steppers as the model driver's `pointx` argument.  It
+    describes what the CALLER passed (`original_keys`, recorded when the dict
+    was made), with the class described by the real code's get_array_names"""
+    from pysph.sph.equation import get_array_names
+    from inspect import getfullargspec
+    if not original_keys:
+        return '-'
+    stp = extra[original_keys[0]]
+    ms = []
+    for x in dir(stp):
+        if x.startswith('stage') or x == 'initialize':
+            sa, da = get_array_names(getfullargspec(getattr(stp, x)).args)
+            ms.append('%s=%s' % (x, _names(y[2:] for y in (sa | da))))
+    return '%s;%s@%s' % (type(stp).__name__, ';'.join(ms),
+                         '+'.join(original_keys))
+
+
+def checkpoint(name, idx, scheme, particles, equations, wire, label):
+    """the whole per-point oracle + description at one point of a history"""
+    digits = S.config_of_index(name, idx)
+    cp = {'index': idx, 'digits': digits, 'label': label, 'extra': wire,
+          'labels': dict(S.describe(name, digits))}
+    fail, sbad = real_checkers(scheme, particles, equations, False)
+    tbad = index_type_failures(scheme, particles, equations)
+    parts, complete, missing, typesok = real_description(
+        name, digits, scheme, particles, equations)
+    cp.update(fail=fail, stage_failures=sbad, type_failures=tbad,
+              complete=complete, missing=missing,
+              line=description_line(parts, fail, complete, typesok),
+              steppers=[(k, type(v).__name__) for k, v in
+                        scheme.get_solver().integrator.steppers.items()])
+    return cp
+
+
+def effective_index(name, pidx, qidx, fixed):
+    """the grid point reached from P by configure(**options of Q) when the
+    options `fixed` cannot be changed after construction"""
+    dp, dq = S.config_of_index(name, pidx), S.config_of_index(name, qidx)
+    out = list(dq)
+    for k, (ax, _) in enumerate(S.grid_axes(name)):
+        if ax.startswith('opt:') and ax[4:] in fixed:
+            out[k] = dp[k]
+    return S.index_of_digits(name, out)
+
+
+def hist_job(job):
+    """worker: one history on the real code (see (f) in the module
+    docstring).  -> {'checkpoints': [...]} or {'raised': ...}"""
+    name, kind, pidx, qidx, xkind = job
+    out = {'scheme': name, 'kind': kind, 'p': pidx, 'q': qidx, 'xkind': xkind,
+           'checkpoints': []}
+    buf = io.StringIO()
+    at = 'start'
+    try:
+        with contextlib.redirect_stdout(buf), S.no_compile_evaluator():
+            po, ps, dim, solids, pclean = S.config_values(
+                name, S.config_of_index(name, pidx))
+            qo, qs, qdim, qsolids, qclean = S.config_values(
+                name, S.config_of_index(name, qidx))
+            assert (dim, solids) == (qdim, qsolids)
+            pf, psol, pex = S.array_names(name, solids, po)
+            qf, qsol, qex = S.array_names(name, solids, qo)
+            walls = [w for w in psol + pex if w in qsol + qex]
+            extra = make_extra(xkind, walls)
+            keys = list(extra) if extra else []
+            wire = extra_wire(extra, keys)
+
+            def args(sopts):
+                kw = dict(dt=1e-4, tf=2e-4, **S.solver_kwargs(sopts))
+                if extra is not None:
+                    kw['extra_steppers'] = extra    # the SAME object each time
+                return kw
+            if kind == 'reconf':
+                at = 'building the scheme at P'
+                sch = S.build_scheme(name, po, dim, solids)[0]
+                at = 'configure_solver at P'
+                sch.configure_solver(**args(ps))
+                pa = S.make_arrays(dim, pf + psol + pex)
+                at = 'setup_properties at P'
+                sch.setup_properties(pa, clean=pclean)
+                at = 'get_equations at P'
+                eqs = sch.get_equations()
+                out['checkpoints'].append(checkpoint(
+                    name, pidx, sch, pa, eqs, wire, 'first configuration (P)'))
+                at = 'configure(**options of Q) on the scheme configured at P'
+                fixed = S.apply_options(sch, name, qo)
+                qeff = effective_index(name, pidx, qidx, fixed)
+                qo2 = S.config_values(name, S.config_of_index(name, qeff))[0]
+                at = 'second configure_solver (same argument objects)'
+                sch.configure_solver(**args(qs))
+                f2, s2, x2 = S.array_names(name, solids, qo2)
+                pa2 = S.make_arrays(dim, f2 + s2 + x2)
+                at = 'setup_properties after re-configuration'
+                sch.setup_properties(pa2, clean=qclean)
+                at = 'get_equations after re-configuration'
+                eqs2 = sch.get_equations()
+                out['checkpoints'].append(checkpoint(
+                    name, qeff, sch, pa2, eqs2, wire,
+                    'same scheme object re-configured to Q'))
+            else:
+                at = 'building two schemes'
+                a = S.build_scheme(name, po, dim, solids)[0]
+                b = S.build_scheme(name, qo, dim, solids)[0]
+                at = 'configure_solver of the first scheme'
+                a.configure_solver(**args(ps))
+                at = 'configure_solver of the second scheme (same argument ' \
+                    'objects)'
+                b.configure_solver(**args(qs))
+                for sch, idx, (f, sl, x), cl, lab in (
+                        (b, qidx, (qf, qsol, qex), qclean,
+                         'second scheme (Q), configured with the argument '
+                         'objects the first one got'),
+                        (a, pidx, (pf, psol, pex), pclean,
+                         'first scheme (P), after the second was configured')):
+                    at = 'setup_properties: ' + lab
+                    arrs = S.make_arrays(dim, f + sl + x)
+                    sch.setup_properties(arrs, clean=cl)
+                    at = 'get_equations: ' + lab
+                    eqs = sch.get_equations()
+                    out['checkpoints'].append(checkpoint(
+                        name, idx, sch, arrs, eqs, wire, lab))
+            if extra is not None and list(extra) != keys:
+                out['caller_dict_changed'] = (keys, list(extra))
+    except Exception as e:
+        out['raised'] = (type(e).__name__, str(e)[:300], at,
+                         traceback.format_exc()[-1200:])
+    return out
+
+
+def point_with(name, **labels):
+    """the grid point with the first value on every axis except the given
+    `axis=label`s (axis names without the opt:/solver: prefix)"""
+    dg = []
+    for ax, vals in S.grid_axes(name):
+        want = labels.get(ax.split(':')[-1])
+        labs = [l for l, _ in vals]
+        dg.append(labs.index(want) if want is not None else 0)
+    return S.index_of_digits(name, dg)
+
+
+def history_corpus():
+    """histories that exposed a defect once (seeded: EDAC keeping the
+    stepper of the other formulation in the caller's dict; WCSPH choosing the
+    stepper by the integrator class), run first on every run"""
+    e0 = dict(dim='2', solids='T')
+    out = []
+    for kind, x in (('shared', 'walls'), ('reconf', 'empty'),
+                    ('shared', 'empty'), ('reconf', 'walls')):
+        out.append(('EDACScheme', kind, point_with('EDACScheme', pb='zero', **e0),
+                    point_with('EDACScheme', pb='pos', **e0), x))
+        out.append(('EDACScheme', kind, point_with('EDACScheme', pb='pos', **e0),
+                    point_with('EDACScheme', pb='zero', **e0), x))
+    for a, b in (('default', 'TVDRK3Integrator'), ('TVDRK3Integrator', 'default'),
+                 ('EPECIntegrator', 'TVDRK3Integrator')):
+        for kind, x in (('reconf', 'none'), ('shared', 'walls')):
+            out.append(('WCSPHScheme', kind,
+                        point_with('WCSPHScheme', integrator_cls=a, **e0),
+                        point_with('WCSPHScheme', integrator_cls=b, **e0), x))
+    return out
+
+
+def select_histories(names, rng, bad, thorough):
+    """-> [(scheme, kind, P, Q, extra kind)].  Per scheme: for every option
+    axis and every solver axis, ordered pairs of its values (all of them up to
+    a cap) with the other axes drawn at random and equal in P and Q (`clean`
+    drawn independently); random pairs with the same dim / solids; P = Q.
+    Every pair is run as `reconf` and as `shared`; the extra_steppers kind
+    cycles through none / {} / user steppers for the walls."""
+    jobs = [h for h in history_corpus()
+            if (h[0], h[2]) not in bad and (h[0], h[3]) not in bad]
+    cap = 12 if thorough else 6
+    nrand = 24 if thorough else 8
+    for n in names:
+        axes = S.grid_axes(n)
+        ok = lambda i: (n, i) not in bad and not S.SPECS[n]['rejects'](  # noqa: E731
+            S.config_values(n, S.config_of_index(n, i))[0])
+        pairs = []
+
+        def draw():
+            for _ in range(200):
+                dg = [rng.randrange(len(vs)) for _, vs in axes]
+                if ok(S.index_of_digits(n, dg)):
+                    return dg
+            return None
+        cleank = [k for k, (ax, _) in enumerate(axes) if ax == 'clean'][0]
+        for k, (ax, vals) in enumerate(axes):
+            if not (ax.startswith('opt:') or ax.startswith('solver:')):
+                continue
+            vp = [(a, b) for a in range(len(vals)) for b in range(len(vals))
+                  if a != b]
+            rng.shuffle(vp)
+            for a, b in vp[:cap]:
+                for _ in range(30):
+                    dg = draw()
+                    if dg is None:
+                        break
+                    dp, dq = list(dg), list(dg)
+                    dp[k], dq[k] = a, b
+                    dq[cleank] = rng.randrange(2)
+                    ip, iq = S.index_of_digits(n, dp), S.index_of_digits(n, dq)
+                    if ok(ip) and ok(iq):
+                        pairs.append((ip, iq))
+                        break
+        fixedk = [k for k, (ax, _) in enumerate(axes) if ax in ('dim', 'solids')]
+        for _ in range(nrand):
+            dp, dq = draw(), draw()
+            if dp is None or dq is None:
+                continue
+            for k in fixedk:
+                dq[k] = dp[k]
+            ip, iq = S.index_of_digits(n, dp), S.index_of_digits(n, dq)
+            if ok(ip) and ok(iq):
+                pairs.append((ip, iq))
+        dp = draw()
+        if dp is not None:
+            pairs.append((S.index_of_digits(n, dp),) * 2)
+        for j, (ip, iq) in enumerate(pairs):
+            for kind in ('reconf', 'shared'):
+                jobs.append((n, kind, ip, iq,
+                             EXTRA_KINDS[(j + (kind == 'shared')) % 3]))
+    return list(dict.fromkeys(jobs))
 
 
 # --------------------------------------------------------------------------
@@ -650,10 +1053,11 @@ def run_job(job):
     or a periodic domain, evaluate the initial accelerations and take NSTEPS
     steps with output enabled; after the initial evaluation and after every
     step every floating-point property of the real particles must be finite"""
-    name, idx, domain, work = job
+    name, idx, domain, work, hist_p, xkind = job
     digits = S.config_of_index(name, idx)
     out = {'scheme': name, 'index': idx, 'digits': digits, 'domain': domain,
-           'labels': dict(S.describe(name, digits))}
+           'labels': dict(S.describe(name, digits)), 'hist_p': hist_p,
+           'xkind': xkind}
     t0 = time.time()
     buf = io.StringIO()
     stages = []
@@ -664,13 +1068,43 @@ def run_job(job):
             EQ.group_counter = EQ._counter()
             _serialise_builds()
             opts, sopts, dim, solids, clean = S.config_values(name, digits)
-            scheme, fluids, sol, extra = S.build_scheme(name, opts, dim,
-                                                        solids)
-            particles, dom = run_arrays(name, dim, fluids, sol, extra, domain)
-            skw = {}
-            if sopts.get('integrator_cls') is not None:
-                skw['integrator_cls'] = S._resolve(sopts['integrator_cls'])
+            fluids, sol, extra = S.array_names(name, solids, opts)
             dt = 1e-4
+            # the caller's extra_steppers object (None / {} / a stepper of
+            # its own for every wall array)
+            xs = make_extra(xkind, sol + extra)
+            xkw = {} if xs is None else {'extra_steppers': xs}
+            scheme = None
+            if hist_p is not None:
+                # reach the configuration through a history: the scheme object
+                # is built, configured and set up at another grid point P
+                # first, then re-configured with configure(**options)
+                po, ps, _, _, pclean = S.config_values(
+                    name, S.config_of_index(name, hist_p))
+                st['stage'] = 'history: first configuration (P=#%d)' % hist_p
+                with S.no_compile_evaluator():
+                    scheme = S.build_scheme(name, po, dim, solids)[0]
+                    scheme.configure_solver(dt=dt, tf=NSTEPS * dt, **dict(
+                        S.solver_kwargs(ps), **xkw))
+                    scheme.setup_properties(
+                        S.make_arrays(dim, sum(S.array_names(
+                            name, solids, po), [])), clean=pclean)
+                    scheme.get_equations()
+                st['stage'] = 'history: configure(**options)'
+                fixed = S.apply_options(scheme, name, opts)
+                if effective_index(name, hist_p, idx, fixed) != idx:
+                    out['history_skipped'] = 'options %s cannot be changed ' \
+                        'by configure()' % fixed
+                    scheme = None
+                st['stage'] = 'set-up'
+            if scheme is None:
+                scheme = S.build_scheme(name, opts, dim, solids)[0]
+            particles, dom = run_arrays(name, dim, fluids, sol, extra, domain)
+            skw = dict(S.solver_kwargs(sopts), **xkw)
+            # (group names are numbered by a process-wide counter that ends up
+            # in the generated source: same numbering as without a history,
+            # so that both variants of a configuration share one compilation)
+            EQ.group_counter = EQ._counter()
             scheme.configure_solver(dt=dt, tf=NSTEPS * dt, **skw)
             scheme.setup_properties(particles, clean=clean)
             equations = scheme.get_equations()
@@ -689,6 +1123,9 @@ def run_job(job):
             st['stage'] = 'setup (code generation + compilation)'
             solver.setup(particles, equations, nnps, kernel)
             out['compile_wall'] = time.time() - t0
+            out['steppers'] = [(k, type(v).__name__) for k, v in
+                               solver.integrator.steppers.items()]
+            out['integrator'] = type(solver.integrator).__name__
             d = os.path.join(work, 'out_%s_%d_%s_%d' % (name, idx, domain,
                                                         os.getpid()))
             os.makedirs(d, exist_ok=True)
@@ -910,6 +1347,8 @@ def dispatch(job):
         return cython_job(job[1:])
     if kind == 'run':
         return run_job(job[1:])
+    if kind == 'hist':
+        return hist_job(job[1:])
     raise ValueError('unknown job kind %r' % (kind,))
 
 
@@ -1223,6 +1662,23 @@ def select_runs(names, seed, thorough, bad, have_scipy, notes):
             jobs += [(n, i, d, None) for d in clean[i]]
         else:
             jobs.append((n, i, clean[i][(seed + k) % len(clean[i])], None))
+        # every value of every configure_solver axis (e.g. WCSPH's
+        # integrator_cls) is compiled and run on every run: a stepper /
+        # integrator mismatch only shows when a step is taken
+        dg0 = S.config_of_index(n, i)
+        for ak, (ax, vals) in enumerate(S.grid_axes(n)):
+            if not ax.startswith('solver:'):
+                continue
+            for v in range(len(vals)):
+                if v == dg0[ak]:
+                    continue
+                c2 = [j for j in cover if clean[j] and
+                      S.config_of_index(n, j)[ak] == v]
+                if not c2:
+                    continue
+                j = c2[(seed + k) % len(c2)]
+                jobs.append((n, j, clean[j][(seed + k + v) % len(clean[j])],
+                             None))
     if not thorough:
         taken = {(n, i) for n, i, _, _ in jobs}
         per = {}
@@ -1236,10 +1692,120 @@ def select_runs(names, seed, thorough, bad, have_scipy, notes):
             i = per[n][(seed // max(1, len(order) // 6) + j) % len(per[n])]
             doms = [d for d, w in domain_variants(n, i) if w is None]
             jobs.append((n, i, doms[(seed + j) % len(doms)], None))
-    return list(dict.fromkeys(jobs))
+    jobs = list(dict.fromkeys(jobs))
+    # how each configuration is reached and what the caller passes as
+    # extra_steppers: the periodic variants (and every other single variant)
+    # through a `reconf` history from a partner point of the same scheme with
+    # the same arrays; extra_steppers cycles none / {} / user wall steppers
+    out = []
+    npts = {}
+    for pos, (n, i, d, why) in enumerate(jobs):
+        opts, _, dim, solids, _ = S.config_values(n, S.config_of_index(n, i))
+        arrs = S.array_names(n, solids, opts)
+        walls = arrs[1] + arrs[2]
+        k = npts.setdefault((n, i), len(npts))
+        xkind = EXTRA_KINDS[(seed + k) % 3] if walls else \
+            EXTRA_KINDS[(seed + k) % 2]
+        single = sum(1 for x in jobs if x[:2] == (n, i)) == 1
+        hist_p = None
+        if d == 'periodic' or (single and (seed + k) % 2 == 1):
+            partners = []
+            for j in run_cover(n):
+                if j == i or (n, j) in bad:
+                    continue
+                o2, _, dim2, solids2, _ = S.config_values(
+                    n, S.config_of_index(n, j))
+                if (dim2, solids2) == (dim, solids) and \
+                        S.array_names(n, solids2, o2) == arrs:
+                    partners.append(j)
+            if partners:
+                hist_p = partners[(seed + k) % len(partners)]
+        out.append((n, i, d, why, hist_p, xkind))
+    return out
 
 
 # --------------------------------------------------------------------------
+
+STAGE_DEMAND = (
+    'code generation for the whole problem succeeds and a short run is '
+    'possible: every self.<member> the integrator\'s one_timestep uses (its '
+    'body becomes a method of the generated cdef class Integrator) is a member '
+    'of that class -- defined by the template or a wrapper generated because '
+    'some stepper chosen by the scheme has that stage')
+CHECK_DEMAND = (
+    'every equation and stepper references only properties the arrays have '
+    'after setup_properties; AccelerationEval / SPHCompiler set-up and code '
+    'generation succeed')
+
+
+def history_text(h):
+    lab = lambda i: dict(S.describe(h['scheme'], S.config_of_index(  # noqa: E731
+        h['scheme'], i)))
+    ex = {'none': 'extra_steppers not given', 'empty': 'extra_steppers={}',
+          'walls': 'extra_steppers={<wall>: UserWallStep()}'}[h['xkind']]
+    if h['kind'] == 'reconf':
+        return ('%s built and configured at P=#%d %s; configure_solver(%s); '
+                'setup_properties; get_equations; then configure(**options of '
+                'Q=#%d %s); configure_solver(the same argument objects); '
+                'setup_properties(fresh plain arrays); get_equations'
+                % (h['scheme'], h['p'], lab(h['p']), ex, h['q'], lab(h['q'])))
+    return ('two %s objects, at P=#%d %s and at Q=#%d %s; P.configure_solver(%s) '
+            'then Q.configure_solver(the same argument objects); then each: '
+            'setup_properties(plain arrays); get_equations'
+            % (h['scheme'], h['p'], lab(h['p']), h['q'], lab(h['q']), ex))
+
+
+def hist_case(h, cp=None):
+    c = {'scheme': h['scheme'], 'mode': 'history',
+         'history': {'kind': h['kind'], 'p': h['p'], 'q': h['q'],
+                     'xkind': h['xkind']},
+         'what': history_text(h)}
+    if cp is not None:
+        c.update(index=cp['index'], digits=cp['digits'], labels=cp['labels'],
+                 checkpoint=cp['label'])
+    else:
+        c.update(index=h['p'], digits=S.config_of_index(h['scheme'], h['p']))
+    return c
+
+
+def judge_history(h):
+    """-> [(key, case, demand, observed)] for one history's answer"""
+    n = h['scheme']
+    out = []
+    if 'raised' in h:
+        out.append(('C12:%s:history:raises:%s' % (n, h['raised'][0]),
+                    hist_case(h),
+                    'configure / configure_solver / setup_properties / '
+                    'get_equations run for documented options and arguments, '
+                    'also on a scheme object or with argument objects that '
+                    'were used before',
+                    'raised %s: %s during: %s\n%s' % tuple(h['raised'])))
+        return out
+    for cp in h['checkpoints']:
+        where = '%s; steppers %s' % (cp['label'], cp['steppers'])
+        if cp['fail'] is not None or not cp['complete']:
+            k = key_of(n, cp['missing'], cp['fail']).replace(
+                'C12:%s:' % n, 'C12:%s:history:' % n, 1)
+            out.append((k, hist_case(h, cp), CHECK_DEMAND +
+                        ' -- for the configuration reached, whatever the '
+                        'scheme object or the caller\'s argument objects were '
+                        'used for before',
+                        '%s: missing %s; real checker: %s'
+                        % (where, cp['missing'], cp['fail'])))
+        if cp['stage_failures']:
+            icls, memb, prov = cp['stage_failures'][0]
+            out.append(('C12:%s:history:stage-missing:%s.%s' % (n, icls, memb),
+                        hist_case(h, cp), STAGE_DEMAND,
+                        '%s: one_timestep of %s uses self.%s; wrappers %s'
+                        % (where, icls, memb, prov)))
+        if cp['type_failures']:
+            cls, meth, arg, kt = cp['type_failures'][0]
+            out.append(('C12:%s:history:index-type:%s.%s:%s'
+                        % (n, cls, arg, kt.rstrip('*')), hist_case(h, cp),
+                        'index-used array arguments have integer known types',
+                        '%s: %s' % (where, cp['type_failures'])))
+    return out
+
 
 def case_of(o):
     return {'scheme': o['scheme'], 'index': o['index'], 'digits': o['digits'],
@@ -1256,9 +1822,24 @@ def describe_run(r):
     if r.get('nonfinite'):
         return ('non-finite values on the real particles after %s (property, '
                 'number of entries): %s' % (r['nonfinite_at'], r['nonfinite']))
-    return ('finite after %s; %d real + %d ghost particles, %d output files'
+    return ('finite after %s; %d real + %d ghost particles, %d output files; '
+            '%s over %s'
             % (', '.join(r.get('stages', [])), r.get('nreal', 0),
-               r.get('nghost', 0), r.get('dumps', 0)))
+               r.get('nghost', 0), r.get('dumps', 0), r.get('integrator'),
+               r.get('steppers')))
+
+
+def run_how(r):
+    if r.get('hist_p') is None:
+        how = 'fresh scheme object'
+    else:
+        how = ('scheme object first configured and set up at #%d %s, then '
+               'configure(**options)' % (r['hist_p'], dict(S.describe(
+                   r['scheme'], S.config_of_index(r['scheme'], r['hist_p'])))))
+    return '%s; %s' % (how, {
+        'none': 'extra_steppers not given', 'empty': 'extra_steppers={}',
+        'walls': 'extra_steppers={<wall>: UserWallStep()}'}[
+            r.get('xkind') or 'none'])
 
 
 def run_failed(r):
@@ -1272,7 +1853,8 @@ def replay_run(case, name, idx, work):
     failed = False
     for dom in doms:
         R = ProcRunner(dispatch, 1)
-        R.add([('run', name, idx, dom, work)], 1800)
+        R.add([('run', name, idx, dom, work, case.get('hist_p'),
+                case.get('xkind') or 'none')], 1800)
         for job, status, r in R.run():
             if status != 'ok':
                 r = {'crash': r}
@@ -1294,7 +1876,24 @@ def replay(path, work):
     failed = False
     if mode == 'run':
         # (in a child process, before any pysph code has run in this one)
+        print('reached by:', run_how(case))
         sys.exit(1 if replay_run(case, name, idx, work) else 0)
+    if mode == 'history':
+        hh = case['history']
+        h = hist_job((name, hh['kind'], hh['p'], hh['q'], hh['xkind']))
+        print('history :', history_text(h))
+        for cp in h['checkpoints']:
+            print('  checkpoint %s -> #%d %s: steppers %s, checker: %s, '
+                  'missing: %s, stages missing: %s'
+                  % (cp['label'], cp['index'], cp['labels'], cp['steppers'],
+                     cp['fail'], cp['missing'], cp['stage_failures']))
+        probs = judge_history(h)
+        for k, _, _, obs in probs:
+            print('observed: [%s] %s' % (k, obs))
+        if not probs:
+            print('observed: every checkpoint complete, accepted, stages '
+                  'provided')
+        sys.exit(1 if probs else 0)
     o = examine((name, idx, True, True))
     if 'raised' in o and not o.get('declared_rejection'):
         print('observed: configuration raised', o['raised'])
@@ -1305,6 +1904,11 @@ def replay(path, work):
             failed = True
         else:
             print('observed: complete, accepted, code generated')
+        if o.get('stage_failures'):
+            print('observed: one_timestep uses members the generated '
+                  'Integrator class will not have (integrator, member, '
+                  'wrappers of the steppers):', o['stage_failures'])
+            failed = True
         if o.get('type_failures'):
             print('observed: index-used arguments whose known type is not an '
                   'integer pointer (class, method, argument, known type):',
@@ -1427,6 +2031,7 @@ def main():
     nfail = 0
     per_key = {}
     type_fail = {}
+    stage_fail = {}
     for o in sorted(results, key=lambda o: (o['scheme'], o['index'])):
         R.count('scheme:' + o['scheme'])
         if 'harness_error' in o:
@@ -1461,6 +2066,19 @@ def main():
                     'argument, type): %s' % (o['type_failures'],))
         else:
             R.count('index-types-ok')
+        if o.get('stage_failures'):
+            icls, memb, prov = o['stage_failures'][0]
+            k = 'C12:%s:stage-missing:%s.%s' % (o['scheme'], icls, memb)
+            stage_fail.setdefault(k, []).append((o['scheme'], o['index']))
+            if len(stage_fail[k]) <= 6:
+                R.prop_fail(
+                    k, dict(case_of(o), mode='check'), STAGE_DEMAND,
+                    'one_timestep of %s uses self.%s; the steppers chosen by '
+                    'the scheme give the wrappers %s (all missing members: %s)'
+                    % (icls, memb, prov,
+                       [m for _, m, _ in o['stage_failures']]))
+        else:
+            R.count('stages-provided')
         if not o['accepted'] or not o['complete']:
             nfail += 1
             k = key_of(o['scheme'], o['missing'], o['fail'])
@@ -1477,6 +2095,9 @@ def main():
     for k, n in sorted(per_key.items()):
         R.note('%d grid points fail with key %s' % (n, k))
     for k, pts in sorted(type_fail.items()):
+        nfail += len(pts)
+        R.note('%d grid points fail with key %s' % (len(pts), k))
+    for k, pts in sorted(stage_fail.items()):
         nfail += len(pts)
         R.note('%d grid points fail with key %s' % (len(pts), k))
     R.count('codegen-points', sum(1 for j in jobs if j[2]))
@@ -1510,7 +2131,7 @@ def main():
                           run_notes)
     for x in run_notes:
         R.note(x)
-    known_why = {(n, i, d): w[1] for n, i, d, w in run_sel if w}
+    known_why = {(n, i, d): w[1] for n, i, d, w, _, _ in run_sel if w}
     # one queue: the compile-and-run jobs first (they are the long ones; the
     # open variants before the periodic ones, which then find the module of
     # the same configuration in the cache), then the index-scan validation
@@ -1519,21 +2140,32 @@ def main():
     scan_points = class_cover(results, bad, rng)
     runner = ProcRunner(dispatch, nproc)
     run_tmo = 900 if thorough else 600
-    runner.add([('run', n, i, d, a.work) for n, i, d, _ in
+    runner.add([('run', n, i, d, a.work, hp, xk) for n, i, d, _, hp, xk in
                 sorted(run_sel, key=lambda x: x[2])], run_tmo)
     runner.add([('scan', n, i, a.work) for n, i in scan_points] +
                [('cy', n, i, a.work) for n, i in cy_points], 600)
+    hist_sel = select_histories(names, rng, bad | tf_pts, thorough)
+    runner.add([('hist',) + j for j in hist_sel], 120, chunk=6)
     both = []
     runs = []
+    hists = []
     for job, status, o in runner.run():
         if status == 'ok' and '_exception' in o:
             status, o = 'crash', 'harness exception: ' + o['_exception']
-        if job[0] == 'run':
+        if job[0] == 'hist':
+            if status != 'ok':
+                o = {'scheme': job[1], 'kind': job[2], 'p': job[3],
+                     'q': job[4], 'xkind': job[5], 'checkpoints': [],
+                     'raised': (status, str(o)[:300], 'the whole history',
+                                '')}
+            hists.append(o)
+        elif job[0] == 'run':
             if status != 'ok':
                 dg = S.config_of_index(job[1], job[2])
                 o = {'scheme': job[1], 'index': job[2], 'digits': dg,
                      'labels': dict(S.describe(job[1], dg)),
-                     'domain': job[3], 'crash': o, 'status': status}
+                     'domain': job[3], 'crash': o, 'status': status,
+                     'hist_p': job[5], 'xkind': job[6]}
             runs.append(o)
         elif status != 'ok':
             if job[0] == 'scan':
@@ -1606,6 +2238,54 @@ def main():
               sum(c['cached'] for c in cys), time.time() - t1,
               sum(cy_keys.values())))
 
+    # the histories: tie (model `pointx` = withExtra on the table entry of the
+    # point reached) and the property oracle at every checkpoint
+    hists.sort(key=lambda h: (h['scheme'], h['kind'], h['p'], h['q'],
+                              h['xkind']))
+    cps = [(h, cp) for h in hists for cp in h['checkpoints']]
+    hl = H.run_model('C12', ['pointx %s %d %s' % (h['scheme'], cp['index'],
+                                                  cp['extra'])
+                             for h, cp in cps])
+    if len(hl) != len(cps):
+        raise SystemExit('model driver answered %d lines for %d checkpoints'
+                         % (len(hl), len(cps)))
+    hist_keys = {}
+    ndis = 0
+    for (h, cp), ml in zip(cps, hl):
+        R.d['traces_validated_against_impl'] += 1
+        if ml != cp['line']:
+            ndis += 1
+            if ndis <= 12:
+                R.disagree(hist_case(h, cp), ml[:3000], cp['line'][:3000],
+                           'history-point')
+        R.case('hist|' + cp['line'].split('|', 1)[1] + cp['extra'],
+               cp['line'].count('|eq:') >= 3, None)
+    if ndis > 12:
+        R.note('%d further history checkpoints disagree with the model'
+               % (ndis - 12))
+    for h in hists:
+        R.count('history:%s:%s' % (h['kind'], h['xkind']))
+        R.count('history:' + h['scheme'])
+        if 'caller_dict_changed' in h:
+            R.count('history: configure_solver changed the caller\'s '
+                    'extra_steppers dict')
+        for k, case, demand, obs in judge_history(h):
+            nfail += 1
+            hist_keys[k] = hist_keys.get(k, 0) + 1
+            if hist_keys[k] <= 3:
+                R.prop_fail(k, case, demand, obs)
+    for k, n in sorted(hist_keys.items()):
+        R.note('%d history checkpoints fail with key %s' % (n, k))
+    if R.d['distribution'].get('history: configure_solver changed the '
+                               'caller\'s extra_steppers dict'):
+        R.note('configure_solver wrote into the caller\'s extra_steppers dict '
+               'in some histories (not demanded by C12 itself; its consequences '
+               'are what the checkpoints judge)')
+    R.note('%d histories (%d checkpoints) on reused scheme objects / shared '
+           'argument objects, each checkpoint compared with the model\'s '
+           'withExtra answer and judged by the per-point oracle'
+           % (len(hists), len(cps)))
+
     # workers that died / were killed while checking or generating a point
     for mode, n, i, status, what in sorted(dead):
         nfail += 1
@@ -1621,7 +2301,16 @@ def main():
     for r in sorted(runs, key=lambda r: (r['scheme'], r['index'],
                                          r['domain'])):
         R.count('run:%s:%s' % (r['scheme'], r['domain']))
-        case = dict(case_of(r), mode='run', domain=r['domain'])
+        case = dict(case_of(r), mode='run', domain=r['domain'],
+                    hist_p=r.get('hist_p'), xkind=r.get('xkind', 'none'),
+                    how=run_how(r))
+        R.count('run-reached-by:%s' % ('history' if r.get('hist_p') is not None
+                                       and 'history_skipped' not in r
+                                       else 'fresh scheme'))
+        R.count('run-extra_steppers:%s' % r.get('xkind', 'none'))
+        for ax, lab in r['labels'].items():
+            if ax.startswith('solver:'):
+                R.count('run-%s=%s' % (ax, lab))
         why = known_why.get((r['scheme'], r['index'], r['domain']))
         demand = ('the whole problem compiles and runs on a lattice with '
                   'h = hdx*dx (%s domain): after the initial evaluation and '
